@@ -3,7 +3,7 @@
 tests and ./check C13 --tier quick against it, restore"""
 import importlib.util, json, os, subprocess, sys, time
 HERE = os.path.dirname(os.path.abspath(__file__))
-spec = importlib.util.spec_from_file_location("variants", os.path.join(HERE, "C13-followup3-variants.py"))
+spec = importlib.util.spec_from_file_location("variants", os.path.join(HERE, os.environ.get("VARIANTS", "C13-followup3-variants.py")))
 mod = importlib.util.module_from_spec(spec); spec.loader.exec_module(mod)
 V = mod.V
 REPO = "/work/repo-C13"; F = REPO + "/src/soundevent/geometry/operations.py"; VER = os.path.dirname(HERE)
@@ -15,7 +15,7 @@ for name in names:
     for old, new in V[name]:
         if old not in src:
             print(name, "PATTERN NOT FOUND:", old[:60]); ok = False; break
-        src = src.replace(old, new, 1)
+        src = src.replace(old, new, -1 if os.environ.get("VARIANTS") else 1)
     if not ok:
         continue
     open(F, "w").write(src)
